@@ -248,6 +248,36 @@ impl Property for C16 {
         if empties > 0 {
             ctx.label("empty_text_node");
         }
+        // adjacent text nodes, as work done while text consolidation was off leaves them: "]]" ends one node
+        // and ">" starts the next (the string route and the token route must escape the same way)
+        if src.ratio(1, 10) {
+            let mut paths = vec![];
+            container_paths(&doc, &mut vec![], &mut paths);
+            let path = paths[src.choice_big(paths.len())].clone();
+            let mut m = &mut doc;
+            let mut x = root;
+            for i in &path {
+                x = match xot.children(x).nth(*i) {
+                    Some(c) => c,
+                    None => return Verdict::Fail("harness: path".into()),
+                };
+                m = &mut m.children_mut().unwrap()[*i];
+            }
+            if matches!(m, ANode::Element(_)) {
+                let ch = m.children_mut().unwrap();
+                let (a, b) = [("x]]", ">y"), ("]", "]>"), ("a", "b"), ("]]", ">")][src.choice(4)];
+                xot.set_text_consolidation(false);
+                let r1 = xot.append_text(x, a);
+                let r2 = xot.append_text(x, b);
+                xot.set_text_consolidation(true);
+                if r1.is_err() || r2.is_err() {
+                    return Verdict::Fail("harness: appending adjacent text nodes".into());
+                }
+                ch.push(ANode::Text(a.to_string()));
+                ch.push(ANode::Text(b.to_string()));
+                ctx.label("adjacent_text_nodes");
+            }
+        }
         // start node
         let mut els = vec![];
         collect_elements(&xot, root, &doc, &scope::base_scope(), &mut els);
